@@ -84,6 +84,7 @@ type Exec struct {
 	covered  map[string]bool // clause labels reached on a feasible path
 	vacuity  []string
 	specErr  string
+	boxed       map[string]Val  // slices converted to interface values (sort.Sort arguments), by payload symbol
 	constrained map[string]bool // fresh call results that a branch has already tested on this run
 	lenView  *HeapView // heap view for len() of maps inside contract expressions (nil = current)
 }
@@ -482,11 +483,13 @@ func (x *Exec) enter(st *State, fr *Frame, to *ssa.BasicBlock) bool {
 			// back edge: invariant preserved
 			if spec != nil {
 				env := x.envFor(st, fr)
+				env.loopHead = to
 				for k, inv := range spec.Invariants {
 					x.proveClause(st, env, inv, fmt.Sprintf("%s/loop%d-preserved:%s", x.fname, ord, labelOr(inv.Label, k)), "invariant-preserved", where)
 				}
 				for k, be := range spec.Backedge {
 					env2 := x.envFor(st, fr)
+					env2.loopHead = to
 					env2.eventFloor = fr.loopMark[to]
 					x.proveClause(st, env2, be, fmt.Sprintf("%s/loop%d-backedge:%s", x.fname, ord, labelOr(be.Label, k)), "loop-backedge", where)
 				}
@@ -506,8 +509,17 @@ func (x *Exec) enter(st *State, fr *Frame, to *ssa.BasicBlock) bool {
 			return false
 		}
 		// loop entry: init, havoc, assume
+		{
+			ne := map[*ssa.BasicBlock]*loopSnap{}
+			for k, v := range fr.loopEntry {
+				ne[k] = v
+			}
+			ne[to] = &loopSnap{view: x.view(st), cells: append([]Val(nil), st.cells...)}
+			fr.loopEntry = ne
+		}
 		if spec != nil {
 			env := x.envFor(st, fr)
+			env.loopHead = to
 			for k, inv := range spec.Invariants {
 				x.proveClause(st, env, inv, fmt.Sprintf("%s/loop%d-init:%s", x.fname, ord, labelOr(inv.Label, k)), "invariant-init", where)
 			}
@@ -522,6 +534,7 @@ func (x *Exec) enter(st *State, fr *Frame, to *ssa.BasicBlock) bool {
 		fr.loopMark = nm
 		if spec != nil {
 			env := x.envFor(st, fr)
+			env.loopHead = to
 			for _, inv := range spec.Invariants {
 				if inv.Expr == nil {
 					continue
@@ -571,6 +584,12 @@ func (x *Exec) proveClause(st *State, env *Env, cl Clause, name, kind, where str
 	t, ok := env.evalBool(cl.Expr)
 	x.pure--
 	if !ok {
+		if env.missingEvent {
+			// the clause speaks about a call that did not happen on this path (and is not guarded by
+			// called(...) ==>): it does not hold here
+			x.prove(st, name, kind, cl.Src+"   ["+env.err+"]", tFalse, where)
+			return
+		}
 		x.unsupported(name + ": " + env.err)
 		return
 	}
@@ -1126,6 +1145,11 @@ func (x *Exec) makeIface(st *State, v Val, from, to types.Type) Val {
 		} else {
 			payload = x.uf("box!"+typeName(from), sInt, v.T)
 		}
+	case KSlice:
+		payload = x.fresh("box", sInt)
+		bv := v
+		bv.Typ = from
+		x.boxed[payload.S] = bv
 	default:
 		payload = x.fresh("box", sInt)
 	}
